@@ -133,6 +133,19 @@ func gen(tier string) []proto.Item {
 			}
 		}
 	}
+	// TCP SYN with the sequence number 2^32-1 (default mode: drawn once per run; Paris mode: per probe): the target's
+	// SYN-ACK / RST-ACK acknowledges 0 and is its answer all the same - the hop carries the destination mark
+	for _, v := range []string{"syn", "synr", "synparis"} {
+		for _, form := range []string{"synack", "rstack"} {
+			for _, filtersOff := range []bool{false, true} {
+				s := base(v, 1, 4, 3)
+				s.Rand = []uint32{0xffffffff, 0xffffffff, 0xffffffff, 0xffffffff, 0xffffffff, 0xffffffff, 0xffffffff, 0xffffffff}
+				s.Hops = map[int]proto.HopSpec{3: {Form: form}, 4: {Form: form}}
+				s.FiltersOff = filtersOff
+				items = append(items, proto.Item{Scn: s, Class: fmt.Sprintf("%s/r1-4/destination-position/%s/from-target/sequence-number-all-ones%s", v, form, map[bool]string{false: "", true: "/filters-off"}[filtersOff])})
+			}
+		}
+	}
 	return items
 }
 
